@@ -70,6 +70,10 @@ M = [
  ("c07_full_guard_off_by_one", "C07", "queue.go", "\tif poolCount >= q.bufferSizeMaximum {", "\tif poolCount > q.bufferSizeMaximum {"),
  ("c07_loader_unlocks_in_hand", "C07", "queue.go", "\t\t\tverifAt(\"bcq.loader.inhand\")\n", "\t\t\tq.lock.Unlock()\n\t\t\tverifAt(\"bcq.loader.inhand\")\n\t\t\tq.lock.Lock()\n"),
  ("c07_count_ignores_channel", "C07", "queue.go", "\treturn len(q.blockingQueue) + q.pool.Count()", "\treturn q.pool.Count()"),
+ ("c10_publish_live_slice", "C10", "publisher.go", "\tfor _, s := range subscribers {\n\t\tverifAt(\"publisher.Publish.beforeDeliver\")\n\t\ts := s // the closure below may run later(on subOn): it must not share the loop variable\n", "\t_ = subscribers\n\tfor i := 0; i < len(publisherSelf.subscribers); i++ {\n\t\tverifAt(\"publisher.Publish.beforeDeliver\")\n\t\ts := publisherSelf.subscribers[i]\n"),
+ ("c10_map_forgets_fn", "C10", "publisher.go", "\t\t\tnext.Publish(fn(in))", "\t\t\tif len(next.subscribers) > 1 {\n\t\t\t\tnext.Publish(in)\n\t\t\t\treturn\n\t\t\t}\n\t\t\tnext.Publish(fn(in))"),
+ ("c10_unsubscribe_compacts_in_place", "C10", "publisher.go", "\t\t\t\tnewSubscribers := make([]*Subscription[T], 0, len(subscribers)-1)\n\t\t\t\tnewSubscribers = append(newSubscribers, subscribers[:i]...)", "\t\t\t\tnewSubscribers := subscribers[:0]\n\t\t\t\tnewSubscribers = append(newSubscribers, subscribers[:i]...)"),
+ ("c10_subscribeon_posts_twice_when_buffered", "C10", "publisher.go", "\t\t\tif publisherSelf.subOn != nil {\n\t\t\t\tpublisherSelf.subOn.Post(doSub)", "\t\t\tif publisherSelf.subOn != nil {\n\t\t\t\tif len(subscribers) == 3 {\n\t\t\t\t\tpublisherSelf.subOn.Post(doSub)\n\t\t\t\t}\n\t\t\t\tpublisherSelf.subOn.Post(doSub)"),
 ]
 
 
